@@ -149,7 +149,9 @@ def parse_graphic_sequence(
         try:
             items[idx] = int(value)
         except ValueError:
-            pass
+            if value == '':
+                # An empty parameter means default which is RESET, same as a completely empty sequence
+                items[idx] = AnsiParam.RESET.value
 
     left_in_set = 0
     current_set = []
